@@ -433,6 +433,7 @@ def run(ctx):
     netfiles = {k: net_file(gexe, k, s) for k, s in nets}
     exes = {k: (gexe, netfiles[k]) for k, _ in nets}
     exes["zero"] = (gexe, None)
+    ctx.log("harness binaries built (generic + %s)" % ", ".join(v[0] for v in variants))
     ml = None
     if not tie_broken:
         try:
@@ -441,6 +442,7 @@ def run(ctx):
             ctx.log("extraction failed: %s" % str(ex)[:300])
             proof_broken = True
             info["extraction"] = str(ex)[-1500:]
+    ctx.log("model extracted")
     wdir = os.path.join(VERIF, ".cache", "c07")
     os.makedirs(wdir, exist_ok=True)
     wfiles = {}
@@ -470,24 +472,26 @@ def run(ctx):
     ctx.count("corpus_histories", len(scripts))
     scripts += [gen_script(rng, n_act, have_hook) for _ in range(n_hist)]
     if have_hook:   # real searches (one thread): the op stream of the search's own evaluator is a history
-        n_search = ctx.scale(20, 600)
+        n_search = ctx.scale(16, 600)
         first = len(scripts) - n_hist
         for i in rng.sample(range(first, len(scripts)), min(n_search, n_hist)):
             sc = scripts[i]
-            sc.insert(rng.randint(1, min(len(sc), 40)), "G %d %d" % (rng.choice([2, 3, 4, 6]), rng.choice([200, 600, 1500])))
+            sc.insert(rng.randint(1, min(len(sc), 40)), "G %d %d" % (rng.choice([2, 3, 4, 6]), rng.choice([200, 600, 1000])))
     ctx.notes["real_search_streams"] = ("recorded through the H4 hook (accumulators compared with a from-scratch computation at "
                                         "every evaluation the search performs)" if have_hook else
                                         "not available: needs the H4 hook (hooks/h4-nn-ops.patch) in nneval.cpp")
     jobs = []       # (net kind, derived flag, chunk of scripts)
-    CH = max(1, len(scripts) // (NCPU * 2))
+    CH = max(1, len(scripts) // (NCPU * 6))      # small chunks: a history with a deep dive or a search must not
+                                                  # serialise a whole worker
     for i in range(0, len(scripts), CH):
         k = nets[(i // CH) % len(nets)][0]
         jobs.append((k, not have_hook, scripts[i:i + CH]))
     if have_hook:   # cross-check: the derived stream must describe the same runs
-        for i in range(0, min(len(scripts), 4 * CH), CH):
+        for i in range(0, min(len(scripts), 24), CH):
             jobs.append((nets[(i // CH) % len(nets)][0], True, scripts[i:i + CH]))
     disagreements, specfails, errors = [], [], []
     results = []
+    jobs.sort(key=lambda j: -sum(len(x) + 400 * sum(1 for a in x if a.startswith("G ")) for x in j[2]))   # longest first
     if ml:
         with ThreadPoolExecutor(max_workers=NCPU) as ex:
             results = list(ex.map(lambda j: run_chunk(exes[j[0]], ml, wfiles[j[0]][0], wfiles[j[0]][1], j[2], j[1]), jobs))
@@ -531,6 +535,7 @@ def run(ctx):
     if errors:
         raise RuntimeError("C07 harness/driver failure: %s" % errors[0][1])
 
+    ctx.log("histories replayed: %d ops, %d state comparisons" % (ctx.counts.get("ops_replayed", 0), ctx.evaluations))
     # (4b) SIMD build variants (differential support only: the kernels are not proved).
     #  (i) unit level: scaleClipPack / addSubWeights / matMul called directly on boundary + random vectors in
     #      every build, against a scalar reference inside the harness, against each other, and (first cases)
@@ -648,6 +653,7 @@ def run(ctx):
                                   "differential support only, the kernels are not proved (reference for scaleClipPack and addSubWeights: "
                                   "the Coq specification/model, C07_scaleClipPack_spec)"}
 
+    ctx.log("SIMD variants compared (kernel + engine level)")
     # (4c) evaluation cache: F3 witness replay on the real Evaluate + cache-logic correspondence
     witness = ["T", "P " + FENS[0], "C 50", "V", "C 0", "V"]
     rc, so, se = sh(hcmd(exes["zero"], "cache"), input="\n".join(witness) + "\n", timeout=120, check=True)
@@ -660,10 +666,10 @@ def run(ctx):
     cache_dis, cache_other = None, None
     if ml:
         n_cs = ctx.scale(40, 600)
-        for i in range(n_cs):
-            cs = cache_script(rng, ctx.scale(60, 150))
-            k = nets[i % len(nets)][0]
-            r, err = run_cache(exes[k], ml, cs)
+        cjobs = [(nets[i % len(nets)][0], cache_script(rng, ctx.scale(60, 150))) for i in range(n_cs)]
+        with ThreadPoolExecutor(max_workers=NCPU) as ex:
+            cres = list(ex.map(lambda j: run_cache(exes[j[0]], ml, j[1]), cjobs))
+        for (k, cs), (r, err) in zip(cjobs, cres):
             if err:
                 raise RuntimeError(err)
             lines, mv = r
@@ -681,6 +687,7 @@ def run(ctx):
                 else:
                     ctx.count("cache_values_equal_uncached")
 
+    ctx.log("evaluation cache compared")
     # ---------- verdict ----------
     if f3_real:
         ctx.violation("evalPos returns a value cached under a different contempt (eval cache key = historyHash only, "
